@@ -1,5 +1,7 @@
 mod codec;
+mod orch;
 mod rng;
+mod sys;
 
 use std::io::Write;
 
@@ -18,11 +20,15 @@ fn main() {
         None => Box::new(std::io::BufWriter::new(std::io::stdout())),
     };
     // silence panic messages of caught panics
-    std::panic::set_hook(Box::new(|_| {}));
+    if std::env::var("VH_PANICS").is_err() { std::panic::set_hook(Box::new(|_| {})); }
     match cmd {
         "codec" => match arg(&args, "--replay") {
             Some(p) => codec::replay(p, &mut *out),
             None => codec::generate(seed, n, &mut *out),
+        },
+        "sys" => match arg(&args, "--replay") {
+            Some(p) => sys::replay(p, &mut *out),
+            None => sys::generate(seed, arg(&args, "--first").and_then(|s| s.parse().ok()).unwrap_or(0), n, arg(&args, "--profile").unwrap_or("mixed"), &mut *out),
         },
         _ => {
             eprintln!("usage: vharness codec|... [--seed N] [--n N] [--out FILE] [--replay FILE]");
